@@ -5,15 +5,15 @@
 //
 //	c14 run <file> [deadline-seconds]
 //
-// stdout: the program's output.  exit 0 ok / 3 compile error, trap or panic (message on stderr after
-// "STATUS:") / 4 deadline exceeded while the program was RUNNING (output so far is printed; the
-// interpreter buffers output, so the watchdog reads the buffer through a hook).
+// stdout: the program's output, STREAMED while it runs (hook VerifC14StreamStdout).  stderr: the line
+// "TIMING compile <s>" when compilation is done (the caller starts its own deadline then and kills the
+// process: a tight loop in compiled wasm code cannot be interrupted from inside), and "STATUS: …".
+// exit 0 ok / 3 compile error, trap or panic / 4 the in-process deadline fired (best effort only).
 // Imports of the driver ("strconv", "strings", ...) resolve to Wa's ports embedded from waroot/src,
 // so the binary must be rebuilt whenever /repo changes (ctx.build_harness does).
 package main
 
 import (
-	"bytes"
 	"fmt"
 	"os"
 	"path/filepath"
@@ -66,6 +66,7 @@ func main() {
 			fail(3, "compile-error: module: "+err.Error())
 		}
 		mainFunc = mf
+		wazero.VerifC14StreamStdout(m, os.Stdout)
 	}()
 	fmt.Fprintf(os.Stderr, "TIMING compile %.1fs\n", time.Since(t0).Seconds())
 	type res struct {
@@ -79,7 +80,6 @@ func main() {
 		defer func() {
 			if x := recover(); x != nil {
 				r.pan = fmt.Sprint(x)
-				r.out = wazero.VerifC14Stdout(m)
 			}
 			ch <- r
 		}()
@@ -100,10 +100,6 @@ func main() {
 			fail(3, "run-error: "+r.err.Error())
 		}
 	case <-timeout:
-		out := wazero.VerifC14Stdout(m)
-		if i := bytes.LastIndexByte(out, '\n'); i >= 0 {
-			os.Stdout.Write(out[:i+1])
-		}
 		fail(4, fmt.Sprintf("deadline: still running after %ds", deadline))
 	}
 }
